@@ -329,9 +329,6 @@ fn run(ops: &[Op], classes: &mut u64) -> Result<(), crate::engine::Failure> {
                 if is_comp {
                     *classes |= 1 << 4;
                     let comp = RotatePopulations::from_params(n);
-                    if n == 0 {
-                        continue; // rotate(0) is not specified
-                    }
                     let r = exec_nested(Box::new(comp), nest_now, &problem, &mut state, step)?;
                     if n > h {
                         match r {
@@ -346,8 +343,8 @@ fn run(ops: &[Op], classes: &mut u64) -> Result<(), crate::engine::Failure> {
                         Err(e) => fail!("C04 RotatePopulations err within height", "step {step}: RotatePopulations({n}) erred at height {h}: {e}"),
                     }
                 } else {
-                    if n == 0 || n > h {
-                        continue; // outside the stated domain 1..=height
+                    if n > h {
+                        continue; // outside the stated domain 0..=height
                     }
                     let r = catch(|| state.populations_mut().rotate(n));
                     if let Err(p) = r {
@@ -361,7 +358,9 @@ fn run(ops: &[Op], classes: &mut u64) -> Result<(), crate::engine::Failure> {
                     *classes |= 1 << 2;
                 }
                 let before = model.clone();
-                model[h - n..h].rotate_right(1);
+                if n > 0 {
+                    model[h - n..h].rotate_right(1);
+                }
                 let got = read_stack(&state.populations());
                 let want: Vec<Vec<_>> = model.iter().map(|p| p.iter().map(mview).collect()).collect();
                 if got != want {
@@ -371,7 +370,7 @@ fn run(ops: &[Op], classes: &mut u64) -> Result<(), crate::engine::Failure> {
                     );
                 }
                 // metamorphic: n-1 further rotations restore the original order
-                if !is_comp {
+                if !is_comp && n > 0 {
                     for _ in 0..n - 1 {
                         state.populations_mut().rotate(n);
                     }
@@ -530,6 +529,7 @@ fn exhaustive_alphabet() -> Vec<Op> {
         Op::Rotate(4),
         Op::EditPush((9, None)),
         Op::EditReverse,
+        Op::CompRotate(0),
         Op::CompRotate(2),
         Op::CompRotate(3),
         Op::Nest(1),
@@ -614,12 +614,12 @@ fn op_strategy() -> impl Strategy<Value = Op> {
         6 => pop_strategy().prop_map(Op::Push),
         2 => Just(Op::Pop),
         2 => Just(Op::TryPop),
-        5 => (1u8..6).prop_map(Op::Rotate),
+        5 => (0u8..6).prop_map(Op::Rotate),
         2 => ind_strategy().prop_map(Op::EditPush),
         1 => Just(Op::EditRemoveFirst),
         1 => Just(Op::EditReverse),
         1 => (0u16..40).prop_map(Op::EditRetag),
-        2 => (1u8..7).prop_map(Op::CompRotate),
+        2 => (0u8..7).prop_map(Op::CompRotate),
         2 => (0u8..3).prop_map(Op::Nest),
         2 => (0u8..3, 0u8..3, ind_strategy()).prop_map(|(d, h, i)| Op::ScopedEdit(d, h, i)),
         1 => (0u8..2).prop_map(Op::ShadowedAccess),
@@ -633,7 +633,7 @@ fn op_strategy() -> impl Strategy<Value = Op> {
 
 pub fn run_all(ctx: &mut Ctx, replay: Option<&Path>) {
     ctx.rule("case = history of population-stack operations executed against Populations (inside a State) and a Vec<Vec<_>> model in lock-step, with a full probe of len/is_empty/try_peek(0..h+1)/get_current/peek/current after every step; non-trivial = the history reaches height >= 3 and contains a rotate(n) with 2 <= n <= height; distinct by history");
-    ctx.assume("rotate(0) and rotate(n > height) are outside the stated domain and not generated for the direct call; RotatePopulations(n > height) must be an Err");
+    ctx.assume("rotate(n > height) is outside the stated domain and not generated for the direct call; RotatePopulations(n > height) must be an Err; rotating the top 0 populations (also on an empty stack) is the identity and must be accepted");
     ctx.assume("Clear/Duplicate/Interleave/Split components are only applied when their implicit preconditions hold (a current population; two populations; >= 2 evaluated individuals)");
     let k = StackCheck;
     if let Some(p) = replay {
